@@ -573,3 +573,24 @@ fn enc_flate_hostile_bits() { let v: i32 = kani::any(); flate_hostile(i32::MAX, 
 #[kani::proof]
 #[kani::stub(std::fmt::format, nofmt)]
 fn enc_flate_hostile_columns() { let v: i32 = kani::any(); flate_hostile(i32::MAX, i32::MAX, v); flate_hostile(1, 8, v); flate_hostile(0, 0, v); }
+
+/// native replay target of engine M's ASCII85 group query (CBMC cannot decide this one: /85 and %85 over 32 bits)
+#[kani::proof]
+fn enc_m_a85_group_replay() {
+    let c: [u8; 4] = kani::any();
+    let e = base85_chunk(c);
+    assert!(e.iter().all(|&b| b >= 0x21 && b <= 0x75));
+    assert!(word_85(e) == Some(c));
+}
+
+/// native evaluation of the two ASCII85 kernels (translator validation of engine M against the CURRENT tree)
+#[kani::proof]
+fn enc_m_eval() {
+    let sel: u8 = kani::any();
+    let inp: [u8; 5] = kani::any();
+    #[cfg(verif_replay)]
+    {
+        if sel == 0 { println!("M2S-OUT {:?}", Some(base85_chunk([inp[0], inp[1], inp[2], inp[3]]).to_vec())); }
+        else { println!("M2S-OUT {:?}", word_85(inp).map(|a| a.to_vec())); }
+    }
+}
